@@ -26,7 +26,7 @@ def shards(tier):
 
 
 def required_classes(tier):
-    return ["sktopk", "sign:basic", "sign:aug", "sign:pop", "popprove", "aggregate", "key:boundary", "key:bitlen", "key:random", "msg:empty", "msg:block-boundary", "msg:long"]
+    return ["sign:custom-suite", "sktopk", "sign:basic", "sign:aug", "sign:pop", "popprove", "aggregate", "key:boundary", "key:bitlen", "key:random", "msg:empty", "msg:block-boundary", "msg:long"]
 
 
 def _printable_short(m):
@@ -94,6 +94,16 @@ def run(rec):
             st3, prf = call(suites["pop"].PopProve, sk)
             if st3 == "ok" and isinstance(prf, bytes) and len(prf) == 96:
                 my_sigs["pop"].append(prf)
+    # user-derived suites: outputs follow the same construction with the derived suite's hash function and tags
+    custom = bmon.custom_suites(cs)
+    for j, (key, Sx) in enumerate(custom.items()):
+        sk = rng.randrange(1, R)
+        m = rng.randbytes(rng.choice([0, 16, 64]))
+        rec.case("sign:custom-suite", ("sign", key, sk, m), sample={"fn": "Sign", "suite": key})
+        call(Sx.Sign, sk, m)
+        call(Sx.SkToPk, sk)
+        if key.startswith("pop") and hasattr(Sx, "PopProve"):
+            call(Sx.PopProve, sk)
     # long message once per run
     if rec.shard == 0:
         m = rng.randbytes(4096 if quick else 65536)
